@@ -66,23 +66,35 @@ CLAIMED = {
 }
 
 NOT_APPLICABLE = {
-    "C25": "harness written (harness/store/src/c25_price_feed.rs, one inductive step of PriceFeed::update through the verif_update hook) but "
-           "CBMC did not finish it within 500-900 s / 6 GB even with format!, sol_log and integer Display stubbed; kept as tier=experimental, not claimed.",
-    "C26": "harness written (harness/utils/src/c26_decimal.rs) but Decimal::try_from_price with symbolic decimals (u128 pow/div by a symbolic "
-           "power of ten) did not finish in CBMC within 900 s; kept as tier=experimental, not claimed.",
-    "C36": "harness written (harness/utils/src/c36_instruction.rs) but the Vec<AccountMeta>-building to_instruction did not finish in CBMC "
-           "(propositional post-processing ran out of memory); kept as tier=experimental, not claimed.",
+    "C03": "harnesses for PoolDelta::price_impact / adjusted_factors are being built in harness/model; not claimed until their quick tier is quiet on the unchanged tree.",
+    "C11": "harnesses for PositionExt::pnl_value / cap_pnl are being built in harness/model; not claimed until their quick tier is quiet on the unchanged tree.",
+    "C18": "harnesses written (harness/store/src/c18_roles.rs: one arbitrary role operation from eight reachable role-store states against a grant-set model; restart policy of Store::has_role / has_admin_role "
+           "with a stubbed LastRestartSlot) but a single symbolic RoleStore operation (32-byte name handling, utf-8 validation, fixed_map shifting loops over 32/64 entries) does not finish in CBMC within "
+           "900-1500 s; in addition CBMC 6.11 mis-evaluates memcmp through symbolically indexed elements of maps nested at a non-zero offset (members map with >= 2 entries), so multi-member histories "
+           "cannot be decided soundly. Kept tier=experimental, not claimed.",
     "C19": "access control is an attribute on ~200 Anchor entrypoints whose bodies need Context<..> with PDA-validated AccountInfos, "
-           "token CPIs and sysvars; a single hand-built entrypoint context did not finish symbolic execution in 17 min/5 GB (probed), "
-           "so a property quantified over all instructions is out of reach of solver-based checking here; the authentication core is decided under C18.",
+           "token CPIs and sysvars; a hand-built AccountInfo + real AccountLoader + RevertibleMarket::new did not finish symbolic execution in 600 s for a single pool read (probed), "
+           "so a property quantified over all instructions is out of reach of solver-based checking here.",
+    "C22": "function-level harnesses written (harness/store/src/c22_balances.rs: the real ValidateMarketBalances code accepts exactly the covered states, all u128/u64 values) but the cheapest variant needs "
+           "more than 10 minutes of SAT time and the single-token variant does not finish in 1500 s; the instruction-level statement (after every instruction, across markets sharing a vault) needs the "
+           "Anchor instruction layer and SPL-token state. Not claimed.",
+    "C24": "PriceValidator::{validate_one, merge_range, finish} and SmallPrices::from_price are exposed through cfg(gmsol_verif) hooks and their MIR->SMT obligations are being written (mir2smt/props/C24.py); "
+           "not claimed until that check is quiet on the unchanged tree. Oracle::with_prices_opts (clear on both paths) needs account loaders.",
+    "C29": "try_adjust_price_with_max_deviation_factor is exposed through a cfg(gmsol_verif) hook and its MIR->SMT obligations are being written (mir2smt/props/C29.py); not claimed until quiet.",
+    "C30": "GtState mint/burn/rank/mint-cost obligations are being written for the MIR->SMT engine (mir2smt/props/C30.py); mint_to itself runs 256-bit ruint arithmetic (div_to_factor) behind Clock::get and does not finish in CBMC. Not claimed until quiet.",
+    "C36": "timelock state-level harnesses (InstructionHeader::approve / is_executable, TimelockConfig::increase_delay, InstructionAccess::to_instruction) are being built in harness/periph; not claimed until quiet.",
+    "C37": "treasury state-level harnesses (Config factors, GtBank transitions) are being built in harness/periph; not claimed until quiet. The proportional-claim formula is inline in CompleteGtExchange::execute behind token CPIs.",
+    "C38": "compute_time_weighted_apy / calculate_gt_reward_amount harnesses are being built in harness/periph (53-bucket loops of saturating 128-bit products: expensive); not claimed until quiet. unstake_lp needs token CPIs.",
+    "C39": "competition leaderboard / time-extension harnesses are being built in harness/periph; not claimed until quiet.",
     "C41": "heap-backed containers with hashing (HashSet<Pubkey>, IndexMap), bincode serialisation and input-proportional loops: "
            "outside what CBMC can execute symbolically and not loop-free integer code for the MIR->SMT encoder.",
     "C42": "petgraph StableGraph + Bellman-Ford over rust_decimal edge weights with HashMap state: heap/hash containers and "
            "input-proportional loops are outside the reach of the solver-based engines available.",
     "C44": "path execution runs over account-loader-backed revertible markets and HashSet<Pubkey> (RandomState) duplicate detection, "
            "reachable only through Anchor contexts and CPIs; per-hop arithmetic is decided under C04/C05.",
+    "C45": "three parts exist: gmsol-model GLV pricing round trip at u8 (harness/liq), Glv::insert_market admission (harness/store/src/c45_glv.rs, does not finish: 7 KB map image) and the balance caps "
+           "(mir2smt/props/C45.py, being written); not claimed until a quick tier covering the state part is quiet. ops/glv.rs instruction flow needs Anchor contexts.",
 }
-
 
 # Additional claims live in lib/claims/*.py, one file per work area; each defines CLAIMED and/or
 # NOT_APPLICABLE dicts with the same shape as above (a claim there overrides a not-applicable here).
@@ -92,5 +104,15 @@ for _f in sorted(_glob.glob(_os.path.join(_os.path.dirname(_os.path.abspath(__fi
     exec(compile(open(_f).read(), _f, "exec"), _ns)
     CLAIMED.update(_ns.get("CLAIMED", {}))
     NOT_APPLICABLE.update(_ns.get("NOT_APPLICABLE", {}))
+    # AMEND = {"Cnn": {"text_append": .., "note_append": .., "technique": .., "engine": ..}} extends a claim made in an earlier file
+    for _p, _a in _ns.get("AMEND", {}).items():
+        if _p in CLAIMED:
+            _c = dict(CLAIMED[_p])
+            _c["text"] = _c["text"] + " " + _a.get("text_append", "")
+            _c["note"] = _c["note"] + " " + _a.get("note_append", "")
+            for _k in ("technique", "engine"):
+                if _k in _a:
+                    _c[_k] = _a[_k]
+            CLAIMED[_p] = _c
 for _p in CLAIMED:
     NOT_APPLICABLE.pop(_p, None)
